@@ -192,6 +192,19 @@ pub fn of_expr(e: &OpeningHoursExpression) -> Vec<String> {
     for r in &e.rules {
         of_rule(r, &mut f);
     }
+    // a comment-less closed rule (which `normalize` folds away) followed by a rule whose span
+    // passes midnight
+    for (i, r) in e.rules.iter().enumerate() {
+        if r.kind == RuleKind::Closed && r.comments.is_empty() && r.operator != RuleOperator::Fallback {
+            let mut later = Vec::new();
+            for r2 in &e.rules[i + 1..] {
+                of_rule(r2, &mut later);
+            }
+            if later.iter().any(|x| x == "time_spill") {
+                f.push("closed_nocomment_rule_before_spill_rule".to_string());
+            }
+        }
+    }
     f.push(format!("rules_{}", e.rules.len().min(4)));
     f.sort();
     f.dedup();
